@@ -114,7 +114,7 @@ def _t2_valid(top):
 _T2PRE = ["0 <= c0 <= 9 and c0 != 7 and c0 != 8", "0 <= c1 <= 6", "0 <= c2 <= 9", "0 <= c3 <= 8", "0 <= c4 <= 8", "1 <= w"]
 
 
-@harness("C01", also=("C06",), args="c0: int, c1: int, c2: int, c3: int, c4: int, w: int", pre=_T2PRE,
+@harness("C01", args="c0: int, c1: int, c2: int, c3: int, c4: int, w: int", pre=_T2PRE,
          tiers={"quick": {"timeout": 170, "pre": ["w == 1", "c4 == 0 or c4 >= 7", "c1 == 1", "c3 == 0 or c3 == 4 or c3 >= 7"],
                           "parts": parts_product(parts_over("c0", (0, 2, 4, 5, 6, 9)), [("lo", "c2 <= 4"), ("hi", "c2 >= 5")])},
                 "thorough": {"timeout": 1500, "pre": ["w <= 2"], "parts": parts_product(parts_over("c0", (0, 1, 2, 3, 4, 5, 6, 9)), parts_over("c2", range(10)), parts_over("w", (1, 2)))}},
